@@ -60,7 +60,7 @@ def query_side(ctx, h, res):
                           f"caching on gives cold={g(on[0], on[2])!r} warm={g(on[1], on[2])!r}, caching off gives {g(off[0], off[2])!r}")
     res.rule("CACHED-EQ", n)
     # semantic KEY: a warm entry is only ever used for the same settings
-    settings = list(itertools.product(("FORWARD", "BACKWARD", "ANY"), c04.UHS[:2], ("none", "accept", "rejD")))
+    settings = list(itertools.product(("FORWARD", "BACKWARD", "ANY"), c04.UHS[:2], ("none", "accept", "rejD"))) + [("ANY", "NEIGHBOR", "closure-1"), ("ANY", "NEIGHBOR", "closure-2"), ("FORWARD", "NEIGHBOR", "closure-1")]
     rows = [("DirectedEdge", "v1"), ("DirectedEdge", "v2"), ("SymTwo", "v1"), ("UnDirectedEdge", "v2")]
     m = 0
     for s1, s2 in itertools.product(settings, settings):
@@ -72,7 +72,9 @@ def query_side(ctx, h, res):
                 h.reset()
                 a, links, others = c04.build(h, rows)
                 set_flag(h, caching)
-                cbs = {"none": None, "accept": c04.mkfilter("accept"), "rejD": c04.mkfilter("selective", (links[0], links[1]))}
+                mk = h.sym["make_reject"]
+                cbs = {"none": None, "accept": c04.mkfilter("accept"), "rejD": c04.mkfilter("selective", (links[0], links[1])),
+                       "closure-1": h.I.call(mk, [others[0]], {}), "closure-2": h.I.call(mk, [others[3]], {})}
                 h.call(fn, a, C[s1[0]], C[s1[1]], cbs[s1[2]])
                 o = h.call(fn, a, C[s2[0]], C[s2[1]], cbs[s2[2]])
                 res2.append(names(o.value) if o.kind == "return" else o.excname)
@@ -248,6 +250,7 @@ def run(ctx):
     registry(ctx, h, res)
     only_neighbors(ctx, res)
     common.vacuity(res, "CACHED-EQ", 405)
+    key_args_rule(ctx, res)
     common.vacuity(res, "KEY", 300)
     common.vacuity(res, "INVALIDATE", 5000)
     common.vacuity(res, "REGISTRY", 8)
@@ -256,3 +259,38 @@ def run(ctx):
     res.explanation = ("Cached answers equal recomputed ones because (i) a cold or warm query returns the table row, (ii) an entry is only reused under identical settings, "
                        "(iii) every mutator removes the entries of every vertex whose neighbour signature it changes, whatever the flag, and (iv) nothing depends on class-level "
                        "state that un-pickling does not restore.")
+
+
+SURROGATES = ("id", "hash", "repr", "str", "type", "len", "bool")
+SURROGATE_ATTRS = ("__code__", "__name__", "__qualname__", "__class__", "__doc__", "__module__", "__hash__")
+
+
+def key_args_rule(ctx, res):
+    """KEY-ARGS: the memo key passed to the vertex's get/insert helpers is built from neighbors()' own parameters, not from a
+    surrogate that distinct arguments can share (id() of a short-lived callable is re-used after collection; closures share
+    __code__; hash/repr/str/type collide).  A surrogate is the recipe for a witness: query with one argument, let it die / build a
+    second one sharing the surrogate, query again with caching on."""
+    prog = common.program(ctx)
+    f = prog.func(NB)
+    params = set(f.params())
+    n = 0
+    for node in ast.walk(f.node):
+        if isinstance(node, ast.Call) and isinstance(node.func, ast.Attribute) and node.func.attr in ("_qa_neighbors_get", "_qa_neighbors_insert"):
+            for a in list(node.args) + [k.value for k in node.keywords]:
+                n += 1
+                for sub in ast.walk(a):
+                    bad = None
+                    if isinstance(sub, ast.Call) and isinstance(sub.func, ast.Name) and sub.func.id in SURROGATES and any(isinstance(x, ast.Name) and x.id in params for x in ast.walk(sub)):
+                        bad = f"{sub.func.id}(...)"
+                    elif isinstance(sub, ast.Attribute) and sub.attr in SURROGATE_ATTRS and any(isinstance(x, ast.Name) and x.id in params for x in ast.walk(sub)):
+                        bad = f".{sub.attr}"
+                    elif isinstance(sub, ast.Call) and isinstance(sub.func, ast.Name) and sub.func.id == "getattr" and len(sub.args) >= 2 and isinstance(sub.args[1], ast.Constant) and sub.args[1].value in SURROGATE_ATTRS:
+                        bad = f"getattr(..., {sub.args[1].value!r})"
+                    if bad:
+                        res.violation("KEY-ARGS", NB, f"surrogate={bad}", f"{f.rel}:{node.lineno}: the memo key passed to {node.func.attr}() contains `{ast.unparse(a)}`: {bad} of an argument is shared by "
+                                      "distinct arguments (re-used ids of collected callables, closures of one lambda, colliding hashes), so a cached answer computed for one is served for another",
+                                      replay="from edgegraph.structure import *\nfrom edgegraph.traversal import helpers\nVertex.NEIGHBOR_CACHING = True\na, b, c = Vertex(), Vertex(), Vertex(); DirectedEdge(a, b); DirectedEdge(a, c)\n"
+                                             "def only(t): return lambda e, v: v is t\nprint(helpers.neighbors(a, filterfunc=only(b)), helpers.neighbors(a, filterfunc=only(c)))")
+    res.rule("KEY-ARGS", n)
+    if n == 0:
+        res.note("KEY-ARGS: no call of the vertex memo helpers found in neighbors(); memoisation is organised differently (the evaluation decides)")
